@@ -250,6 +250,42 @@ def main(run):
                      "nofmt": nofmt, "expected_path": target, "flags": ["-o", "unformattable-module"] + (["--no-formatting"] if nofmt else []), "doc_text": "query KwEnum { t n }\n",
                      "schema_text": stext_u, "outdir": os.path.join(d, "out"), "stale": False, "label": "module that rustfmt cannot parse"})
 
+    # a document without operations (fragments only): the library succeeds with nothing to emit, so the file is the header
+    # alone - and a stale file from an earlier run must be replaced by it
+    for bi, (nofmt, stale) in enumerate(((True, False), (False, False), (True, True))):
+        d = os.path.join(root, "fragonly%d" % bi)
+        os.makedirs(os.path.join(d, "out"))
+        sp = os.path.join(d, "schema.graphql")
+        stext_f = "type Query { a: A n: Int }\ntype A { id: ID name: String }\n"
+        open(sp, "w").write(stext_f)
+        qp = os.path.join(d, "only_fragments.graphql")
+        qtext_f = "fragment AParts on A { id name }\nfragment Root on Query { n a { ...AParts } }\n"
+        open(qp, "w").write(qtext_f)
+        target = os.path.join(d, "out", "only_fragments.rs")
+        if stale:
+            open(target, "w").write("// stale output of an earlier run\npub struct OldOperation;\npub mod old_operation { }\n")
+        argv = ["generate", "--schema-path", sp, qp, "-o", os.path.join(d, "out")] + (["--no-formatting"] if nofmt else [])
+        jobs.append({"id": "fragonly%d" % bi, "kind": "success", "argv": argv, "dir": d, "schema_path": sp, "query_path": qp, "opts": {"mode": "cli", "visibility": "pub"},
+                     "nofmt": nofmt, "expected_path": target, "flags": ["-o", "no-operations"] + (["--no-formatting"] if nofmt else []) + (["stale-output"] if stale else []),
+                     "doc_text": qtext_f, "schema_text": stext_f, "outdir": os.path.join(d, "out"), "stale": stale})
+
+    # every deprecation strategy spelled out, on an operation that selects deprecated fields (the flag is the library option,
+    # nothing more: same header, same modules)
+    for bi, (strategy, nofmt) in enumerate((("warn", True), ("warn", False), ("allow", True), ("deny", True), ("WARN", True))):
+        d = os.path.join(root, "depr%d" % bi)
+        os.makedirs(os.path.join(d, "out"))
+        sp = os.path.join(d, "schema.graphql")
+        stext_d = "type Query { a: A old: Int @deprecated(reason: \"use a\") }\ntype A { id: ID name: String @deprecated legacy: [Int!]! @deprecated(reason: \"gone\") }\n"
+        open(sp, "w").write(stext_d)
+        qp = os.path.join(d, "with_deprecated.graphql")
+        qtext_d = "query WithDeprecated { old a { id name legacy } }\nquery Without { a { id } }\n"
+        open(qp, "w").write(qtext_d)
+        argv = ["generate", "--schema-path", sp, qp, "-o", os.path.join(d, "out"), "-d", strategy] + (["--no-formatting"] if nofmt else [])
+        jobs.append({"id": "depr%d" % bi, "kind": "success", "argv": argv, "dir": d, "schema_path": sp, "query_path": qp,
+                     "opts": {"mode": "cli", "visibility": "pub", "deprecation": strategy.lower()}, "nofmt": nofmt, "expected_path": os.path.join(d, "out", "with_deprecated.rs"),
+                     "flags": ["-o", "-d", "deprecated-fields-selected"] + (["--no-formatting"] if nofmt else []), "doc_text": qtext_d, "schema_text": stext_d,
+                     "outdir": os.path.join(d, "out"), "stale": False})
+
     def snapshot(d):
         out = {}
         for base, _, files in os.walk(d):
